@@ -194,6 +194,12 @@ OutcomeX(P, S, par, own_, c) ==
     [] c.op = "split_text" ->
          [errs |-> {}, ok |-> par[c.r] # None, any |-> par[c.r] = None \/ par[c.new] # None]
 
+    \* Attr.value := a non-empty string without references, on attribute a: "creates a Text node with the unparsed
+    \* contents of the string" (DOM L1) - the children of the attribute are replaced by ONE new Text node (`new`: the pool
+    \* slot it will occupy), and the former children are removed: they have no parent any more
+    [] c.op = "set_value" ->
+         [errs |-> {}, ok |-> TRUE, any |-> par[c.new] # None]
+
 Outcome(P, S, c) == OutcomeX(P, S, ParentFn(P, S), OwnerFn(P, S), c)
 
 \* ---------------------------------------------------------------------------------------------
@@ -229,6 +235,7 @@ Apply(P, S, c) ==
     [] c.op = "split_text" ->
          LET p == Parent(P, S, c.r)
          IN  [S EXCEPT !.kids[p] = InsertAt(S.kids[p], IndexOf(S.kids[p], c.r) + 1, c.new)]
+    [] c.op = "set_value" -> [S EXCEPT !.kids[c.a] = <<c.new>>]
 
 \* the node a successful call returns (None: nothing / unit)
 Returned(P, S, c) ==
